@@ -69,6 +69,8 @@ def gen_server(tier, rng):
     mixes = ["it1", "it1,recv1", "it2,try3", "recv2,timed2", "it1,it1,recv1", "try5", "timed3,it2", "it3"]
     for i in range(16 if tier == "quick" else 200):
         yield "rv %s %d %d %s" % (rng.choice(["u", "u", "t"]), rng.choice([1, 2, 4]), rng.choice([1, 3, 6]), rng.choice(mixes)), {"server_api": "mix"}
+    # far more connections than any plausible built-in limit, each with one request
+    yield "rv u 140 1 recv60,try20,timed20", {"server_api": "many-connections"}
     # after a burst of more than four connections and the pool's idle period (surplus workers retire), what arrives
     # must still be delivered
     yield "rv u 2 3 recv3,try2,timed2 pre=8:5600", {"server_api": "after-idle-retirement"}
